@@ -7,7 +7,7 @@
     response serialises, data or errors; and the stage-contract checks of the composed model hold.
     Every other stream goes to the glue check (Pipe/PipelineCheck.v).  Executable only. *)
 From Coq Require Import List NArith ZArith Bool String Ascii.
-From ApiFu Require Import Base.Sexp Pipe.PipelineModel Pipe.PipelineCheck Pipe.Convert Pipe.Compose Pipe.SchemaAgree.
+From ApiFu Require Import Base.Sexp Pipe.PipelineModel Pipe.PipelineCheck Pipe.Convert Pipe.Compose Pipe.SchemaAgree Pipe.CostCompose.
 From ApiFu Require Val.Values Val.CoerceSpec.
 From ApiFu Require Syn.Ast Syn.ParserModel Syn.FrontEnd Vld.Ast Vld.Inspect Vld.TypeInfoModel Vld.ValidatorModel Vld.Decode Vld.ValidatorCheck ExeA.ArgData ExeA.ArgModel ExeA.ArgHyps ExeA.ArgDecode ExeA.ArgCheck.
 Import ListNotations.
@@ -120,6 +120,48 @@ Definition judge_composed (kind : string) (VS : Vld.Ast.schema) (F : Vld.Ast.fea
       end
   end.
 
+Definition add_classes (verdict : sexp) (cls : list string) : sexp :=
+  match verdict with
+  | SL (SSym t :: rest) => if String.eqb t "ok" then SL (SSym t :: rest ++ map SSym cls) else verdict
+  | _ => verdict
+  end.
+
+(** ** the cost rule on the same request: [(cost (max M) (res R) (obs syntax | invalid | (accepted N)))] is
+    what graphql.ParseAndValidate with ValidateCost(opname, variables, M, &actual, FieldCost{Resolver: R})
+    answered; [CostCompose.parse_validate_cost] must predict the class and [*actual] *)
+Definition judge_cost (VS : Vld.Ast.schema) (F : Vld.Ast.features) (ES : ExeA.ArgData.schema)
+           (bs opname : bytes) (raw : list (ExeA.ArgData.name * Val.Values.jval)) (co : list sexp) (verdict : sexp) : sexp :=
+  match tagged "ok" verdict with
+  | None => verdict
+  | Some _ =>
+      match field1 "max" co, field1 "res" co, field1 "obs" co with
+      | Some (SZ mx), Some (SZ rs), Some ob =>
+          let m := parse_validate_cost Vld.ValidatorModel.id_order VS F ES bs opname raw rs mx in
+          let accepted_by_rules := match parse_and_validate_bytes VS F bs with FAccepted _ => true | _ => false end in
+          let show := match m with
+                      | CSyntax => tag "syntax" [] | CInvalid => tag "invalid" []
+                      | CAccepted a => tag "accepted" [SZ a] | CCrashed => tag "crashed" []
+                      end in
+          match m, untag ob with
+          | CSyntax, Some (t, []) => if String.eqb t "syntax" then add_classes verdict ["cost-syntax-rejected"] else v_mismatch "cost-class" [show]
+          | CInvalid, Some (t, []) =>
+              if String.eqb t "invalid" then
+                add_classes verdict (if accepted_by_rules then ["cost-rule-rejected"] else ["cost-validation-rejected"])
+              else v_mismatch "cost-class" [show]
+          | CAccepted a, Some (t, [SZ a']) =>
+              if String.eqb t "accepted" then
+                if Z.eqb a a' then add_classes verdict ["cost-accepted"] else v_mismatch "cost-actual" [show]
+              else v_mismatch "cost-class" [show]
+          | CCrashed, _ => v_mismatch "cost-model-crashed" [show]
+          | _, Some (t, _) =>
+              if String.eqb t "panic" || String.eqb t "timeout" then v_oracle_fail (String.append "cost-rule-" t) [ob]
+              else v_mismatch "cost-class" [show]
+          | _, None => v_bad "cost-observed"
+          end
+      | _, _, _ => v_bad "cost-fields"
+      end
+  end.
+
 Definition check_composed (l : list sexp) : sexp :=
   match field1 "kind" l, field1 "query" l, field1 "op" l, field1 "features" l, field1 "vschema" l,
         field1 "eschema" l, field1 "rawvars" l, field1 "world" l, field1 "observed" l, field "outcome" l with
@@ -139,9 +181,14 @@ Definition check_composed (l : list sexp) : sexp :=
             match as_list_of as_bytes fs, Vld.Decode.dec_schema vs, ExeA.ArgDecode.dec_schema es,
                   ExeA.ArgDecode.dec_raw co, ExeA.ArgDecode.dec_outcome w, dec_seen ob with
             | Some F, Some VS, Some ES, Some raw, Some W, Some obs =>
-                if negb (ExeA.ArgHyps.type_names_okb ES && Val.CoerceSpec.env_closed (ExeA.ArgData.s_inputs ES)) then v_bad "schema-hypotheses-do-not-hold"
+                if negb (ExeA.ArgHyps.type_names_okb ES && cost_schema_accepted ES) then v_bad "schema-hypotheses-do-not-hold"
                 else if negb (schemas_agree VS ES) then v_bad "schema-encodings-disagree"
-                else judge_composed kind VS F ES bs op raw W obs
+                else
+                  let v := judge_composed kind VS F ES bs op raw W obs in
+                  match field "cost" l with
+                  | Some co => judge_cost VS F ES bs op raw co v
+                  | None => v
+                  end
             | None, _, _, _, _, _ => v_bad "features"
             | _, None, _, _, _, _ => v_bad "vschema"
             | _, _, None, _, _, _ => v_bad "eschema"
@@ -185,11 +232,6 @@ Definition of_front (r : front_result) : sexp :=
   | FOutOfFuel _ => tag "out-of-fuel" []
   end.
 
-Definition add_classes (verdict : sexp) (cls : list string) : sexp :=
-  match verdict with
-  | SL (SSym t :: rest) => if String.eqb t "ok" then SL (SSym t :: rest ++ map SSym cls) else verdict
-  | _ => verdict
-  end.
 
 Definition judge_front (bs : bytes) (fr : list sexp) (glue : sexp) : sexp :=
   match tagged "ok" glue with
